@@ -165,24 +165,26 @@ Corollary tcp_upstream_meets_spec : forall pp line segs,
   upstream_stream KTcp pp line segs = Ok (Some (spec_upstream KTcp pp line (concat segs))).
 Proof. intros. rewrite tcp_upstream_stream. reflexivity. Qed.
 
-(* tcp-dynamic: the client's bytes, for every segmentation; never a PROXY line *)
+(* tcp-dynamic (since fix commit 341d532): like tcp, for every segmentation
+   [PROXY line] ++ the client's stream *)
 Theorem dynamic_upstream_stream : forall pp line segs,
-  upstream_stream KDyn pp line segs = Ok (Some (concat segs)).
+  upstream_stream KDyn pp line segs = Ok (Some (spec_upstream KDyn pp line (concat segs))).
 Proof.
   intros. unfold upstream_stream, tunnel_setup. cbn [bind s_src s_pre].
   rewrite copy_preserves_stream. reflexivity.
 Qed.
 
-Theorem dynamic_upstream_on_domain : forall line segs,
-  upstream_stream KDyn false line segs = Ok (Some (spec_upstream KDyn false line (concat segs))).
-Proof. intros. rewrite dynamic_upstream_stream. reflexivity. Qed.
-
+(* F-C09-4 as it was before 341d532: the unrepaired proxy never wrote the PROXY line, so with
+   pxyproto=true the upstream's stream was not the specified one, whatever the (non-empty) line
+   and the segmentation; the repaired model delivers it *)
 Theorem dynamic_ignores_proxyproto_refuted : forall line segs, line <> [] ->
-  region_dyn_proxyproto KDyn true = true /\
-  upstream_stream KDyn true line segs <> Ok (Some (spec_upstream KDyn true line (concat segs))).
+  upstream_stream_dyn_unrepaired segs = Ok (Some (concat segs)) /\
+  upstream_stream_dyn_unrepaired segs <> Ok (Some (spec_upstream KDyn true line (concat segs))) /\
+  upstream_stream KDyn true line segs = Ok (Some (spec_upstream KDyn true line (concat segs))).
 Proof.
-  intros line segs Hl. split; [reflexivity|]. rewrite dynamic_upstream_stream. cbn [spec_upstream].
-  intros H. inversion H as [H1]. apply Hl.
+  intros line segs Hl. unfold upstream_stream_dyn_unrepaired. rewrite copy_preserves_stream. cbn [bind].
+  split; [reflexivity|]. split; [|apply dynamic_upstream_stream].
+  cbn [spec_upstream]. intros H. inversion H as [H1]. apply Hl.
   apply (f_equal (@length N)) in H1. rewrite app_length in H1.
   destruct line; [reflexivity | cbn [length] in H1; lia].
 Qed.
@@ -998,12 +1000,11 @@ Proof.
 Qed.
 
 (* THE LINK: for all scenarios (proxy kind, PROXY option, segmentation, close order, trigger),
-   outside the open finding regions (F-C09-2 half-close, F-C09-3 split 101, F-C09-4
-   dynamic+pxyproto) and the close-with-unread-reply race, every observation within the model's
+   outside the open finding regions (F-C09-2 half-close, F-C09-3 split 101) and the close-with-unread-reply race, every observation within the model's
    forced outcome satisfies spec_b: the tripwire verdict 4 cannot arise from the model side *)
 Theorem scenario_meets_spec : forall k pp line segs fin cwait ce ut reply rseg1 whead ue e o_up o_cl,
   scenario_expect k pp line segs fin cwait ce ut reply rseg1 whead ue = Ok e ->
-  region_dyn_proxyproto k pp = false -> region_ws_split k reply rseg1 = false ->
+  region_ws_split k reply rseg1 = false ->
   region_half_close cwait ce = false ->
   race_close_unread_reply (spec_upstream k pp line (concat segs)) cwait ce ut = false ->
   ws_head_first k ut whead = true ->
@@ -1011,7 +1012,7 @@ Theorem scenario_meets_spec : forall k pp line segs fin cwait ce ut reply rseg1 
   within o_cl (e_cl e) (e_cl_lo e) (e_cl_hi e) = true ->
   spec_b k pp line (concat segs) cwait ce ut reply ue o_up o_cl = true.
 Proof.
-  intros k pp line segs fin cwait ce ut reply rseg1 whead ue e o_up o_cl He Rd Rw Rh Rr Hw Hup Hcl.
+  intros k pp line segs fin cwait ce ut reply rseg1 whead ue e o_up o_cl He Rw Rh Rr Hw Hup Hcl.
   destruct (within_parts _ _ _ _ Hcl) as [Hclp Hcll].
   unfold spec_b.
   destruct k.
@@ -1023,10 +1024,9 @@ Proof.
     unfold scenario_expect in He. rewrite upstream_stream_f_eq in He.
     rewrite (sni_upstream_stream_total pp line segs n (c :: name) S) in He by discriminate. cbn [bind] in He.
     inversion He; subst e. apply tunnel_expect_meets_spec; assumption.
-  - (* tcp-dynamic, pxyproto off *)
-    cbn [tunnelled negb]. cbn [region_dyn_proxyproto] in Rd. subst pp.
-    unfold scenario_expect in He. rewrite upstream_stream_f_eq, dynamic_upstream_stream in He. cbn [bind] in He.
-    inversion He; subst e. cbn [spec_upstream app] in *. apply tunnel_expect_meets_spec; assumption.
+  - (* tcp-dynamic *)
+    cbn [tunnelled negb]. unfold scenario_expect in He. rewrite upstream_stream_f_eq, dynamic_upstream_stream in He. cbn [bind] in He.
+    inversion He; subst e. apply tunnel_expect_meets_spec; assumption.
   - (* websocket *)
     unfold tunnelled. destruct (has_prefix reply ws_101) eqn:P; cbn [negb]; [|reflexivity].
     unfold scenario_expect in He.
